@@ -106,7 +106,7 @@ def same(a, b, exact=False):
     a, b = np.asarray(a), np.asarray(b)
     if a.shape != b.shape:
         return False
-    return bool(np.array_equal(a, b)) if exact else bool(np.allclose(a, b, rtol=1e-12, atol=1e-12))
+    return bool(np.array_equal(a, b, equal_nan=True)) if exact else bool(np.allclose(a, b, rtol=1e-12, atol=1e-12, equal_nan=True))
 
 
 def fitted_state(est, name):
@@ -252,8 +252,8 @@ def run_case(case, ctx, st):
                     ctx.count("differential_paths")
                     # the validation score of a named run recomputes the kernel on X[:, selected] (another memory layout):
                     # its history may differ from the precomputed run in the last bits, everything else is identical
-                    flags["best_weights"] = all(np.array_equal(a, b) for a, b in zip(hist[0], hist2[0]))
-                    flags["geminis"] = len(hist[1]) == len(hist2[1]) and bool(np.allclose(hist[1], hist2[1], rtol=1e-9, atol=1e-6))  # sqrt of round-off when the MMD vanishes
+                    flags["best_weights"] = all(np.array_equal(a, b, equal_nan=True) for a, b in zip(hist[0], hist2[0]))
+                    flags["geminis"] = len(hist[1]) == len(hist2[1]) and bool(np.allclose(hist[1], hist2[1], rtol=1e-9, atol=1e-6, equal_nan=True))  # sqrt of round-off when the MMD vanishes
                     for j, nm in ((2, "penalties"), (3, "alphas"), (4, "n_features")):
                         flags[nm] = list(map(repr, hist[j])) == list(map(repr, hist2[j]))
                     ok = all(flags.values())
